@@ -79,7 +79,7 @@ pub const C02: BusCheck = BusCheck {
     own: &["C02"],
     profile: profiles::calls,
     rule: "one case = one generated history (2-6 protocol-level connections of random versions 1.14-1.20, ~60 operations in bursts of 1-5 queued inputs) run against the real broker and compared delivery by delivery with the bus model; distinct = hash of the full event log, non-trivial = at least 5 operations dequeued",
-    quick: 30000,
+    quick: 60000,
     thorough: 2_000_000,
     must_see: &["CallFunction", "CallFunction2", "CallFunctionReply", "AbortFunctionCall"],
 };
@@ -89,7 +89,7 @@ pub const C03: BusCheck = BusCheck {
     own: &["C03"],
     profile: profiles::registry,
     rule: "one case = one generated registry history over a pool of 3 object x 3 service UUIDs (create/destroy, both create-service forms, queries, foreign and stale cookies, disconnects) compared with the bus model; distinct = hash of the event log, non-trivial = at least 5 operations",
-    quick: 30000,
+    quick: 60000,
     thorough: 2_000_000,
     must_see: &["CreateObjectReply", "DestroyObjectReply", "CreateServiceReply", "DestroyServiceReply", "QueryServiceVersionReply", "QueryServiceInfoReply"],
 };
@@ -99,7 +99,7 @@ pub const C04: BusCheck = BusCheck {
     own: &["C04"],
     profile: profiles::events,
     rule: "one case = one generated event history (subscribe/unsubscribe per event and all-events, service subscriptions, emits by owner and strangers, destroys, disconnects over 3 event ids) compared with the bus model; distinct = hash of the event log, non-trivial = at least 5 operations",
-    quick: 30000,
+    quick: 60000,
     thorough: 2_000_000,
     must_see: &["EmitEvent", "SubscribeEvent", "UnsubscribeEvent", "SubscribeAllEvents", "UnsubscribeAllEvents", "ServiceDestroyed"],
 };
@@ -109,7 +109,7 @@ pub const C10: BusCheck = BusCheck {
     own: &["C10"],
     profile: profiles::listeners,
     rule: "one case = one generated listener history (several listeners per connection, all six filter shapes over the UUID pool, three scopes, object/service churn, disconnects) compared with the bus model; distinct = hash of the event log, non-trivial = at least 5 operations",
-    quick: 30000,
+    quick: 60000,
     thorough: 2_000_000,
     must_see: &["EmitBusEvent", "BusListenerCurrentFinished", "StartBusListenerReply", "StopBusListenerReply"],
 };
@@ -119,7 +119,7 @@ pub const C05B: BusCheck = BusCheck {
     own: &["C05"],
     profile: profiles::channels,
     rule: "one case = one generated channel history (create/claim/close/send-item/add-capacity/disconnect on both ends by 2-5 connections, capacities 0,1,3,4,5,16,u32::MAX-1,u32::MAX, senders within and beyond their announced credit, overflowing grants) compared with the bus model; distinct = hash of the event log, non-trivial = at least 5 operations",
-    quick: 30000,
+    quick: 60000,
     thorough: 2_000_000,
     must_see: &["ItemReceived", "AddChannelCapacity", "ChannelEndClaimed", "ChannelEndClosed", "ClaimChannelEndReply", "CloseChannelEndReply"],
 };
